@@ -212,6 +212,9 @@ func DrawHello(t *rapid.T, o HelloOpts) *HelloPlan {
 		}
 	} else if drawBool(t, "v12ext", 20) {
 		exts = append(exts, ExtPlan{Kind: "versions", U16: []uint16{0x0303, 0x0302}})
+	} else if drawBool(t, "legacyvers", 25) {
+		// no supported_versions: legacy_version speaks, and it need not be 0x0303
+		h.LegacyVers = []uint16{0x0304, 0x0305, 0x03ff, 0x0303}[rapid.IntRange(0, 3).Draw(t, "legacyv")]
 	}
 	switch proto {
 	case "h2":
